@@ -55,6 +55,16 @@ def run(ctx):
                             calls.append((cid, c)); cid += 1
                             if (n * S) % B or S % B or list(exl) != sorted(pool[:maxk])[:n]:
                                 ctx.nontrivial(cid)
+    # observable lane: the real dinucleotide_shuffle generator with an integer random_state
+    for (raw, hyp) in ((False, False), (True, False)):
+        for S in (2, 3):
+            key += 1
+            R = rng.randrange(0, 50)
+            for k in range(1, 4):
+                for sub in itertools.combinations(pool[:3], k):
+                    for exl in list(itertools.permutations(sub))[:3]:
+                        for B in sorted({1, S, len(exl) * S, len(exl) * S + 1, 2}):
+                            calls.append((cid, dict(obs=True, ex=list(exl), S=S, B=B, R=R, key=key, raw=raw, hyp=hyp, target=0))); cid += 1
     shards = core.NCPU
     # one memo per trace file: calls with the same key must stay in one shard
     parts = [[] for _ in range(shards)]
@@ -109,7 +119,7 @@ def run(ctx):
         if i < 0:
             continue
         c = byid[i]
-        ctx.violation("M2", "deep_lift_shap(examples=%s, n_shuffles=%d, batch_size=%d, %s): %s" % (c["ex"], c["S"], c["B"], c["refmode"], clause),
+        ctx.violation("M2", "deep_lift_shap(examples=%s, n_shuffles=%d, batch_size=%d, %s): %s" % (c["ex"], c["S"], c["B"], c.get("refmode", "dinucleotide_shuffle"), clause),
                       dict(mode="call", call=c), cls=clause)
     ctx.cov["evaluations"] += len(calls)
     ctx.lane("M2", calls=len(calls), events=sum(len(t) for t in traces), rejected=len([b for b in bad if b[0] > 0]))
